@@ -1103,8 +1103,12 @@ func (fc *FnCtx) isRepoPtrTag(tag string) string {
 		fc.declared["fun!isrepoptr"] = "x"
 		var alts []string
 		for _, t := range fc.eng.knownTypes() {
-			if fc.eng.isRepoPtrType(t) {
-				alts = append(alts, eq("t", fc.tagOf(t)))
+			// every pointer-to-struct type known to occur inside interfaces (in-repo types and the library
+			// error wrappers *os.PathError, *os.LinkError, ...): no typed nil pointers inside interfaces
+			if p, ok := t.(*types.Pointer); ok {
+				if _, isSt := p.Elem().Underlying().(*types.Struct); isSt {
+					alts = append(alts, eq("t", fc.tagOf(t)))
+				}
 			}
 		}
 		fc.decls = append(fc.decls, fmt.Sprintf("(define-fun isrepoptr ((t %s)) Bool %s)", SortTag, or(alts...)))
